@@ -135,7 +135,7 @@ def handleE (j : Json) : Except String Json := do
       [("vars", jList (jDecl lab) m.vars), ("constrs", jList (jConstr lab) m.constrs),
        ("obj", jQuad lab m.obj)]
     else []
-  let base := base ++ [("decode_fail", jList (jDecision I) (decodeFail I))]
+  let base := base ++ [("decode_fail", jList (jDecision I) (decodeFail I)), ("wf", Json.bool I.wf)]
   let withSigma : List (String × Json) :=
     match fldOpt j "sigma" with
     | none => []
